@@ -121,10 +121,14 @@ HARNESSES = [
     tab_h("temp.real", "H_TEMP", "harness_temp", ["BS_N=4", "NMAXT=4"], {"lib/tree_decode.c": ["build_tree"]},
           {"read_length_value.0": 31, "ref_length.0": 31, "read_temp_table.0": 5, "read_temp_table.1": 6, "harness_temp.0": 37, "harness_temp.1": 5, "harness_temp.2": 6, "read_from_tree.0": 2},
           "read_temp_table with the real read_length_value on an arbitrary <= 32-bit string, tables of n <= 4 entries (skip field included), unary extensions of any length", units="read_temp_table,read_length_value", tier="thorough", timeout=1800),
-    tab_h("code", "H_CODE", "harness_code", ["BS_N=6", "NC=24"], {"lib/tree_decode.c": ["build_tree", "read_from_tree"]},
-          {"read_code_table.0": 27, "read_code_table.1": 27, "harness_code.0": 27, "harness_code.1": 27, "harness_code.2": 27, "harness_code.3": 27, "real_read_from_tree.0": 2},
-          "read_code_table with NUM_CODES = 24 (template instantiated small): arbitrary n <= 24, arbitrary temp-symbol sequence 0..30, arbitrary extra bits in a <= 48-bit string: all three zero-run classes incl. runs clipped at the table end",
+    tab_h("code", "H_CODE", "harness_code", ["NC=24", "KMAX=4"], {"lib/tree_decode.c": ["build_tree", "read_from_tree"]},
+          {"read_code_table.0": 27, "read_code_table.1": 6, "harness_code.0": 34, "harness_code.1": 27, "harness_code.2": 27, "harness_code.3": 27, "harness_code.4": 6, "real_read_from_tree.0": 2},
+          "read_code_table with NUM_CODES = 24 (template instantiated small): arbitrary n <= 24, arbitrary temp-symbol sequence 0..30 of at most 4 symbols, arbitrary bit fields (field-sequence model of the bit string), input ending after any field: all three zero-run classes incl. runs clipped at the table end",
           units="read_code_table,read_skip_count", extra_stubs=["read_from_tree(temp tree): arbitrary pre-drawn symbol sequence 0..30, consumed identically by the reference"], timeout=600),
+    tab_h("code.full", "H_CODE", "harness_code", ["NC=24"], {"lib/tree_decode.c": ["build_tree", "read_from_tree"]},
+          {"read_code_table.0": 27, "read_code_table.1": 27, "harness_code.0": 34, "harness_code.1": 27, "harness_code.2": 27, "harness_code.3": 27, "harness_code.4": 27, "real_read_from_tree.0": 2},
+          "read_code_table with NUM_CODES = 24: as tables.code without the limit on the number of temp symbols",
+          units="read_code_table,read_skip_count", extra_stubs=["read_from_tree(temp tree): arbitrary pre-drawn symbol sequence 0..30, consumed identically by the reference"], tier="thorough", timeout=1800),
     tab_h("off4", "H_OFF", "harness_off", ["BS_N=4", "OB=4", "LENSTUB"], {"lib/tree_decode.c": ["build_tree"], "lib/lh_new_decoder.c": ["read_length_value"]},
           {"read_offset_table.0": 18, "harness_off.0": 18, "harness_off.1": 66, "harness_off.2": 18, "read_from_tree.0": 2},
           "read_offset_table with OFFSET_BITS 4 (-lh4/5-): every n 0..15, arbitrary length values, any alignment, truncation", units="read_offset_table", extra_stubs=["read_length_value: arbitrary pre-drawn value per call, no bits consumed, call positions logged (real function vs format: tables.len)"]),
